@@ -6,13 +6,13 @@ match `known_findings.json` (call site + condition), `detail` is for the replay 
 """
 import traceback
 
-from . import core, envmon
+from . import compmon, core, envmon
 
 ALL = {
     "C01": core.c01, "C02": core.c02, "C03": core.c03, "C04": envmon.c04, "C05": core.c05,
     "C07": core.c07, "C08": core.c08, "C09": core.c09, "C10": core.c10, "C11": core.c11,
     "C12": core.c12, "C14": envmon.c14, "C15": envmon.c15, "C18": envmon.c18, "C19": envmon.c19,
-    "C20": envmon.c20, "C06": envmon.c06, "C13": envmon.c13,
+    "C20": envmon.c20, "C06": envmon.c06, "C13": envmon.c13, "C16": compmon.c16, "C17": compmon.c17,
 }
 
 
